@@ -1,5 +1,6 @@
 import Beetswap.Model.Text
 import Driver.NodeIO
+import Driver.CidIO
 open Beetswap
 
 def splitAt (bs : List Nat) (cuts : List Nat) : List (List Nat) :=
@@ -62,7 +63,10 @@ def step (st : DState) (line : String) : DState × String :=
       let (node, outs, q) := Node.step st.node op
       let qs := match q with | some q => s!"q={q} " | none => ""
       ({ st with node := node }, s!"{qs}{Driver.NodeIO.showOuts outs} ## {Driver.NodeIO.showState node}")
-  | toks => (st, stepPure toks)
+  | toks =>
+    match Driver.CidIO.step toks with
+    | some o => (st, o)
+    | none => (st, stepPure toks)
 
 partial def loop (h : IO.FS.Stream) (out : IO.FS.Stream) (st : DState) : IO Unit := do
   let line ← h.getLine
